@@ -85,6 +85,14 @@ POOL = [
     "characters(digits => true).len()", 'int("12") + float("1.5")',
     '$.items.max() - $.items.min()', 'isString($.s) and isList($.items)',
     '$src.take(3).select($ + 1)', '$src.where($ mod 2 = 0).take(2).sum()',
+    # the two aggregator conventions of groupBy next to each other
+    '$.items.groupBy($ mod 2, $, $.sum())',
+    '$.items.groupBy($ mod 2, $, [$[0], $[1].sum()])',
+    # persistent updates of collections the host keeps in the shared context
+    '$hostPath.insert(0, root)', '$hostDefaults.delete(a).len()',
+    '$hostDefaults.deleteAll([b]).keys().toList()',
+    # a helper of the shared chain, called from several evaluations at once
+    'probe($.a)', '[probe($.b), probe(10)]',
     # one host object reached through two yaqlized facades
     '$guest.registry.name', '$admin.registry.secret',
     '[$admin.registry.name, $guest.registry.name]',
@@ -214,6 +222,20 @@ def make_parent(lib=None):
     parent['$tup'] = (1, 2, 3)
     parent['$hostSet'] = frozenset([1, 2])
     parent.register_function(host_fn, name='hostFn')
+    # mutable collections of the host's, set the ordinary way (context
+    # variables are not converted)
+    parent['$hostPath'] = ['usr', 'lib']
+    parent['$hostDefaults'] = {'a': 1, 'b': 2}
+    if lib is None:
+        # a helper the host defined in yaql itself: def() hands back the
+        # context that holds the function, and that is the context every
+        # evaluation is a child of
+        try:
+            parent = common.engine()(
+                'def(probe, [$1, hostFn($1), $1, hostFn($1 + 1)])').evaluate(
+                    context=parent)
+        except Exception:   # noqa
+            pass
     return parent
 
 
@@ -879,8 +901,12 @@ def run(run):
     pairs += [((i, 0), (j, 0)) for i in fd for j in fd]
     # the statements that reach one host object through different facades,
     # in both orders
-    fac = [i for i, t in enumerate(POOL) if '.registry.' in t]
-    fac_pairs = [((i, 0), (j, 0)) for i in fac for j in fac if i != j]
+    groups = [[i for i, t in enumerate(POOL) if mark(t)] for mark in (
+        lambda t: '.registry.' in t,
+        lambda t: ', $, $.sum())' in t or '$[1].sum()' in t,
+        lambda t: '$hostPath' in t or '$hostDefaults' in t,
+        lambda t: 'probe(' in t)]
+    fac_pairs = [((i, 0), (j, 2)) for g in groups for i in g for j in g]
     pairs += [((i, 0), (i, 0)) for i in range(0, n, 3)]
     if not full:
         pairs = pairs[run.seed % 2::2] + [((i, 0), (j, 0))
